@@ -2221,9 +2221,15 @@ impl<'a> Searcher<'a> {
                 VariantType::Int => {
                     // a number with a fractional part (`size > 2.5`) is no integer and no size with a unit:
                     // it used to be read as 0
+                    // ... and so is a size whose unit makes it fractional, negative or larger than an integer
+                    // (`size >= 0.3k` is `size >= 307.2`)
                     let literal = value.to_string();
                     if literal.parse::<i64>().is_err() {
-                        if let Ok(val) = literal.parse::<f64>() {
+                        let number = literal.parse::<f64>().ok().or_else(|| {
+                            parse_filesize_exact(&literal)
+                                .filter(|size| size.fract() != 0.0 || *size < 0.0 || *size >= i64::MAX as f64)
+                        });
+                        if let Some(val) = number {
                             let float_value = field_value.to_float();
                             return match op {
                                 Op::Eq | Op::Eeq => float_value == val,
